@@ -581,7 +581,7 @@ mod verif_in_packet_stream {
         }
     }
 
-    //@ h name=tx_write_fragmented props=C01,C16 tier=quick cap=small to=1200
+    //@ h name=tx_write_fragmented props=C01,C16 tier=thorough cap=small to=1200
     //@ claim: TxPacketStream::write of two packets one after the other, against a transport that accepts an arbitrary non-empty prefix per call and may answer Pending: the bytes the transport received are exactly the first packet followed by the second, complete and in order; write returns Pending only after the transport returned Pending (waker registered) and completes with Ok once everything was accepted
     //@ bounds: two packets of 1..=3 and 1..=3 arbitrary bytes; up to 2 Pending answers in total; accepted prefix per call any 1..=min(offered, 2); up to 6 polls per write
     //@ funcs: TxPacketStream::write, TxPacketStream::from (futures_util::io::WriteAll is real)
@@ -637,7 +637,7 @@ mod verif_in_packet_stream {
         core::mem::forget(tx);
     }
 
-    //@ h name=rx_split_length props=C03,C16,C04 tier=quick cap=big to=1800 mem=30
+    //@ h name=rx_split_length props=C03,C16,C04 tier=thorough cap=big to=1800 mem=30
     //@ claim: when a read ends INSIDE a multi-byte Remaining Length (header byte plus one to three length bytes, all with the continuation bit set), poll_next does not emit anything, does not panic, does not report end-of-stream, and returns Pending only after having polled the reader again in the same call (so that the wakeup for the rest of the length field is registered)
     //@ bounds: header byte arbitrary; 1..=3 length bytes with the continuation bit set and arbitrary low bits, delivered in one read (and, _1_1: the header alone first); the reader is Pending afterwards; 2 polls
     //@ assume: RxPacket::try_decode stubbed by a recorder (never reached here)
